@@ -3,7 +3,7 @@
 (* TLC (a) checks that the code-shaped expectations satisfy the property on    *)
 (* every abstract case except the lead classes (which are printed and must be  *)
 (* confirmed or refuted on the real code), (b) checks non-vacuity, (c) exports *)
-(* the four complete case products for the Go harness.                         *)
+(* the complete case products of all tables for the Go harness.                *)
 EXTENDS CodecDefs, Json, SequencesExt
 
 \* --- design: Holds(c, Expected(c)) wherever no lead is declared, and every lead really is one
@@ -12,6 +12,12 @@ WireDesign == \A c \in WireCaseSet : HoldsWire(c, ExpectedWire(c), ExpectedWire(
 ValDesign  == \A c \in ValCaseSet  : HoldsVal(c, ExpectedVal(c)) <=> ~ValLead(c)
 ReqDesign  == \A c \in ReqCaseSet  : HoldsReq(c, ExpectedReq(c)) <=> ~ReqLead(c)
 VcDesign   == \A c \in VcCaseSet   : HoldsVc(c, ExpectedVc(c)) <=> ~VcLead(c)
+\* every outcome the code-shaped expectation allows for a frame satisfies the property, and is an outcome
+FrDesign   == \A c \in FrCaseSet   : /\ ExpectedFr(c) # {} /\ ExpectedFr(c) \subseteq FrOuts
+                                      /\ \A out \in ExpectedFr(c) : HoldsFr(c, [out |-> out])
+ArDesign   == \A c \in ArCaseSet   : HoldsAr(c, ExpectedAr(c)) <=> ~ArLead(c)
+\* one row per (type, member)
+ArTableFn  == \A r1, r2 \in ArTable : (r1[1] = r2[1] /\ r1[2] = r2[2]) => r1 = r2
 
 \* Classify is idempotent under Effective and total
 ClassifyTotal == \A c \in WireCaseSet : Classify(c).cls \in {"reject", "call", "notif", "result", "error"}
@@ -27,6 +33,18 @@ Witnesses ==
   /\ \A fr \in Framings, d \in Dirs, k \in {"call", "notif", "result", "error", "errordata"} :
         \E c \in MsgCaseSet : c.framing = fr /\ c.dir = d /\ c.kind = k /\ ~MsgLead(c)
   /\ \E c \in MsgCaseSet : MsgLead(c)
+  \* frames: every path sees the empty batch with every kind of white space; the three kinds of expectation occur
+  /\ \A pa \in FrPaths, p \in FrPads : \E c \in FrCaseSet : c.path = pa /\ c.pad = p /\ c.shape = "arr-empty"
+  /\ \A pa \in FrNdPaths, t \in FrTerms \ {"na"} : \E c \in FrCaseSet : c.path = pa /\ c.term = t /\ c.shape = "arr-empty"
+  /\ \A e \in {{"value"}, {"error"}, {"value", "error"}} : \E c \in FrCaseSet : ExpectedFr(c) = e
+  /\ \A o \in {"panic", "crash"} : \A c \in FrCaseSet : ~HoldsFr(c, [out |-> o])
+  \* arity: members that distinguish nil from empty exist, and for them a decoder that returns nil for empty fails
+  /\ {r[2] : r \in {x \in ArTable : ArDistinguished(x[1], x[2])}} = {"inputRequests"}
+  /\ \A t \in ArMrtr : ArDistinguished(t, "inputRequests")
+  /\ \A c \in ArCaseSet : (ArDistinguished(c.type, c.member) /\ c.arity = "empty")
+        => ~HoldsAr(c, [ExpectedAr(c) EXCEPT !.isnil = TRUE])
+  /\ \A c \in ArCaseSet : (~ArDistinguished(c.type, c.member) /\ c.arity # "one")
+        => HoldsAr(c, [ExpectedAr(c) EXCEPT !.isnil = ~@])
 
 LeadIds == {c.id : c \in {x \in MsgCaseSet : ~HoldsMsg(x, ExpectedMsg(x)) /\ x.method # "empty"}}
 
@@ -38,16 +56,21 @@ Export ==
   /\ ndJsonSerialize("cases_val.ndjson", SetSeq(ValCaseSet))
   /\ ndJsonSerialize("cases_req.ndjson", SetSeq(ReqCaseSet))
   /\ ndJsonSerialize("cases_vc.ndjson", SetSeq(VcCaseSet))
+  /\ ndJsonSerialize("cases_fr.ndjson", SetSeq(FrCaseSet))
+  /\ ndJsonSerialize("cases_ar.ndjson", SetSeq(ArCaseSet))
 
 ASSUME MsgDesign
 ASSUME WireDesign
 ASSUME ValDesign
 ASSUME ReqDesign
 ASSUME VcDesign
+ASSUME FrDesign
+ASSUME ArTableFn /\ ArDesign
 ASSUME ClassifyTotal /\ ValidAccepted
 ASSUME Witnesses
 ASSUME PrintT(ToJson([msg |-> Cardinality(MsgCaseSet), wire |-> Cardinality(WireCaseSet),
                       val |-> Cardinality(ValCaseSet), req |-> Cardinality(ReqCaseSet), vc |-> Cardinality(VcCaseSet),
+                      fr |-> Cardinality(FrCaseSet), ar |-> Cardinality(ArCaseSet),
                       msgLeads |-> Cardinality({c \in MsgCaseSet : MsgLead(c)}),
                       valLeads |-> Cardinality({c \in ValCaseSet : ValLead(c)}),
                       reqLeads |-> Cardinality({c \in ReqCaseSet : ReqLead(c)}),
